@@ -287,7 +287,6 @@ where
             matchiters: Vec::new(),
             nextmatches: Vec::new(),
             text: self.text(),
-            begincharpos: 0,
             beginbytepos: 0,
             allow_overlap,
         })
@@ -455,7 +454,6 @@ where
             matchiters: Vec::new(),
             nextmatches: Vec::new(),
             text: self.text(),
-            begincharpos: self.begin(),
             beginbytepos: self
                 .store()
                 .subslice_utf8_offset(text)
@@ -656,7 +654,6 @@ where
             matchiters: Vec::new(),
             nextmatches: Vec::new(),
             text: self.text(),
-            begincharpos: self.begin(),
             beginbytepos: self
                 .store()
                 .subslice_utf8_offset(text)
@@ -961,7 +958,6 @@ pub struct FindRegexIter<'store, 'regex> {
     pub(crate) matchiters: Vec<Matches<'regex, 'store>>, //each expression (from selectexpressions) has its own interator  (same length as above vec)
     pub(crate) nextmatches: Vec<Option<Match<'store>>>, //this buffers the next match for each expression (from selectexpressions, same length as above vec)
     pub(crate) text: &'store str,
-    pub(crate) begincharpos: usize,
     pub(crate) beginbytepos: usize,
     pub(crate) allow_overlap: bool,
 }
@@ -1040,16 +1036,14 @@ impl<'store, 'regex> FindRegexIter<'store, 'regex> {
                 let textselection = self
                     .resource
                     .textselection(&Offset::simple(
-                        self.begincharpos
-                            + self
-                                .resource
-                                .utf8byte_to_charpos(self.beginbytepos + m.start())
-                                .expect("byte to pos conversion must succeed"),
-                        self.begincharpos
-                            + self
-                                .resource
-                                .utf8byte_to_charpos(self.beginbytepos + m.end())
-                                .expect("byte to pos conversion must succeed"),
+                        //(the byte positions are positions in the resource, so the resulting
+                        //character positions are absolute already)
+                        self.resource
+                            .utf8byte_to_charpos(self.beginbytepos + m.start())
+                            .expect("byte to pos conversion must succeed"),
+                        self.resource
+                            .utf8byte_to_charpos(self.beginbytepos + m.end())
+                            .expect("byte to pos conversion must succeed"),
                     ))
                     .expect("textselection from offset must succeed");
                 FindRegexMatch {
@@ -1071,16 +1065,12 @@ impl<'store, 'regex> FindRegexIter<'store, 'regex> {
                         textselections.push(
                             self.resource
                                 .textselection(&Offset::simple(
-                                    self.begincharpos
-                                        + self
-                                            .resource
-                                            .utf8byte_to_charpos(self.beginbytepos + group.start())
-                                            .expect("byte to pos conversion must succeed"),
-                                    self.begincharpos
-                                        + self
-                                            .resource
-                                            .utf8byte_to_charpos(self.beginbytepos + group.end())
-                                            .expect("byte to pos conversion must succeed"),
+                                    self.resource
+                                        .utf8byte_to_charpos(self.beginbytepos + group.start())
+                                        .expect("byte to pos conversion must succeed"),
+                                    self.resource
+                                        .utf8byte_to_charpos(self.beginbytepos + group.end())
+                                        .expect("byte to pos conversion must succeed"),
                                 ))
                                 .expect("textselection from offset must succeed"),
                         )
